@@ -9,7 +9,13 @@ the connection is lost — possibly after only a prefix of the next box's bytes 
 case = {"ops": [["call", peer, kind, follow] | ["deliver", dir, k] | ["fire", index, outcome]
                 | ["disc", dir, cutpermille]], "chunks": seed}
   peer / dir: 0 = A (-> B), 1 = B (-> A);  kind: now | later | declared | sub | fatal | undeclared | unknown
-  (sub: the responder raises a strict subclass of the declared exception; fatal: a declared fatal error)
+  (sub: the responder raises a strict subclass of the declared exception; fatal: a declared fatal error;
+   echo: callRemoteString to a low-level amp_ECHO responder that answers with the very box it was handed, so the
+   answer still carries _command/_ask; baddesc / weirderr: the responder raises RemoteAmpError with the declared /
+   an unknown code and an arbitrary-bytes description DESCS[k] -- ["call", peer, kind, follow, k])
+  ["raw", peer, j, combo, k]: a raw box reaches `peer` that names the tag of its j-th unanswered call and carries
+   unanswered `later` call and carries several routing keys at once (combo in ac, ec, ae, aec: _answer/_error/_command);
+   precedence answer > error > command
   follow: the callback AND errback of the call's Deferred synchronously issue one more call (kind now) on
   the same connection -- at answer time, at error time or at connection-loss time (application retry logic)
   outcome: ok | declared | sub | fatal | undeclared
@@ -22,8 +28,11 @@ import random
 
 from harness.common import Failure, Spec, coq_list
 
-KINDS = ["now", "later", "declared", "sub", "fatal", "undeclared", "unknown"]
-OUTCOMES = ["ok", "declared", "sub", "fatal", "undeclared"]
+KINDS = ["now", "later", "declared", "sub", "fatal", "undeclared", "unknown", "echo", "baddesc", "weirderr"]
+OUTCOMES = ["ok", "declared", "sub", "fatal", "undeclared", "baddesc"]
+# error descriptions a responder / raw peer may send: invalid UTF-8, empty, long, valid non-ASCII, plain
+DESCS = [b"caf\xe9", b"", b"\xff\xfe\x00bad", b"x" * 3000, "h\u00e9llo".encode("utf-8"), b"plain"]
+BIG = 10 ** 6          # baddesc / weirderr calls carry their description index as n // BIG
 
 
 def _setup():
@@ -182,6 +191,21 @@ def impl(case) -> str:
                 ev.append(f"I{me}:{n}")
                 raise UndeclaredError("undeclared")
 
+            @cmds["baddesc"].responder
+            def r_baddesc(self, n):
+                ev.append(f"I{me}:{n % BIG}")
+                raise amp.RemoteAmpError(b"DECLARED", DESCS[n // BIG])
+
+            @cmds["weirderr"].responder
+            def r_weirderr(self, n):
+                ev.append(f"I{me}:{n % BIG}")
+                raise amp.RemoteAmpError(b"WEIRD", DESCS[n // BIG])
+
+            def amp_ECHO(self, box):
+                # low-level responder: the answer is the box we were handed (it keeps _command and _ask)
+                ev.append(f"I{me}:{int(box[b'n'])}")
+                return box
+
             @cmds["switch"].responder
             def r_switch(self):
                 ev.append(f"I{me}:sw")
@@ -202,6 +226,11 @@ def impl(case) -> str:
     up = True
     chan: list[list[bytes]] = [[], []]      # chan[d]: boxes written by peer d, not yet delivered
     ncalls = 0
+    tagcount = [0, 0]
+    tagged: list[list] = [[], []]      # per peer: (call id, tag) of the calls that were put on the wire
+    firedset: set = set()
+    want_desc: dict = {}               # call id -> description bytes its error must carry (decoded leniently)
+    descbad: list = []
 
     def pump():
         """move what the peers wrote into the per-direction box queues (one entry per box)"""
@@ -257,12 +286,21 @@ def impl(case) -> str:
     for op in case["ops"]:
         ev.clear()
         if op[0] == "call":
-            def issue(peer, kind, follow):
+            def issue(peer, kind, follow, k=0):
                 nonlocal ncalls
                 i, ncalls = ncalls, ncalls + 1
+                if up:
+                    tagcount[peer] += 1
+                    tagged[peer].append((i, b"%x" % tagcount[peer], kind))
                 try:
                     if kind == "switch":
                         d = peers[peer].callRemote(cmds[kind], tprotocol.ClientFactory.forProtocol(tprotocol.Protocol))
+                    elif kind == "echo":
+                        d = peers[peer].callRemoteString(b"echo", n=b"%d" % i)
+                        d.addCallback(lambda box: {"n": int(box[b"n"])})
+                    elif kind in ("baddesc", "weirderr"):
+                        want_desc[i] = DESCS[k]
+                        d = peers[peer].callRemote(cmds[kind], n=i + BIG * k)
                     else:
                         d = peers[peer].callRemote(cmds[kind], n=i)
                 except amp.ProtocolSwitched:
@@ -275,17 +313,47 @@ def impl(case) -> str:
                         issue(peer, "now", False)
 
                 def ok(r, i=i):
+                    firedset.add(i)
                     ev.append(f"C{i}=ok:{r['n'] if kind != 'switch' else i}")
                     again()
 
                 def err(f, i=i):
+                    firedset.add(i)
                     ev.append(f"C{i}=err:{f.type.__name__}")
+                    if i in want_desc and f.type.__name__ != "ConnectionDone":
+                        got = getattr(f.value, "description", None) or str(f.value)
+                        if got != want_desc[i].decode("utf-8", "replace"):
+                            descbad.append(f"C{i}:{got[:20]!r}")
                     again()
 
                 d.addCallbacks(ok, err)
 
-            issue(op[1], op[2], bool(op[3]) if len(op) > 3 else False)
+            issue(op[1], op[2], bool(op[3]) if len(op) > 3 else False, op[4] if len(op) > 4 else 0)
             pump()
+        elif op[0] == "raw":
+            p, j, combo, k = op[1], op[2], op[3], op[4]
+            # only calls whose responder will never answer by itself (a second, genuine answer would hit a retired tag)
+            open_calls = [(i, t) for i, t, kd in tagged[p] if i not in firedset and kd == "later"]
+            if not up or j >= len(open_calls):
+                ev.append("-")
+            else:
+                i, tag = open_calls[j]
+                box = amp.AmpBox()
+                box[b"n"] = b"%d" % i
+                if "a" in combo:
+                    box[b"_answer"] = tag
+                if "e" in combo:
+                    box[b"_error"] = tag
+                    box[b"_error_code"] = b"DECLARED"
+                    box[b"_error_description"] = DESCS[k]
+                    if "a" not in combo:
+                        want_desc[i] = DESCS[k]
+                if "c" in combo:
+                    box[b"_command"] = b"now"
+                    box[b"_ask"] = b"zz"
+                ev.append(f"W{p}:{combo}:{i}")
+                feed(p, box.serialize())
+                pump()
         elif op[0] == "deliver":
             for _ in range(op[2]):
                 if not up or not chan[op[1]]:
@@ -308,6 +376,9 @@ def impl(case) -> str:
                     d.errback(TFailure(SubDeclaredError("sub")))
                 elif op[2] == "fatal":
                     d.errback(TFailure(FatalError("fatal")))
+                elif op[2] == "baddesc":
+                    want_desc[n] = DESCS[n % len(DESCS)]
+                    d.errback(TFailure(amp.RemoteAmpError(b"DECLARED", DESCS[n % len(DESCS)])))
                 else:
                     d.errback(TFailure(UndeclaredError("undeclared")))
                 pump()
@@ -332,17 +403,21 @@ def impl(case) -> str:
         else:
             raise ValueError(op)
         out.append(",".join(ev) if ev else ".")
-    return " ".join(out) + f" |up={'T' if up else 'F'} ab={len(chan[0])} ba={len(chan[1])}"
+    return (" ".join(out) + f" |up={'T' if up else 'F'} ab={len(chan[0])} ba={len(chan[1])}"
+            + (" !desc=" + ";".join(descbad) if descbad else ""))
 
 
 # --------------------------------------------------------------------------------------
 # oracle (independent bookkeeping on the observation)
 
-EXPECT = {"now": None, "switch": None, "declared": "DeclaredError", "sub": "DeclaredError", "fatal": "FatalError",
+EXPECT = {"now": None, "switch": None, "echo": None, "baddesc": "DeclaredError", "weirderr": "UnknownRemoteError", "declared": "DeclaredError", "sub": "DeclaredError", "fatal": "FatalError",
           "undeclared": "UnknownRemoteError", "unknown": "UnhandledCommand", "ok": None}
 
 
 def oracle(case, obs):
+    if " !desc=" in obs:
+        return Failure(case, "an error reached its caller with a description other than the lenient UTF-8 decoding of the bytes "
+                             "that were sent: " + obs.split(" !desc=")[1], "error-description")
     if case.get("kind") == "wrap":
         if not obs.endswith("wrong=[]"):
             return Failure(case, f"one peer makes {case['n']} calls, call(s) {case['slow']} answered only at the end: {obs} -- every "
@@ -392,6 +467,13 @@ def oracle(case, obs):
             if e[0] == "I" and e.endswith(":sw"):
                 handed[int(e[1])] = True
                 continue
+            if e[0] == "W":
+                _p, combo, i = e[1:].split(":")
+                if int(i) not in calls:
+                    return Failure(case, where + "raw box for an unknown call", "log")
+                # precedence: _answer, then _error, then _command
+                calls[int(i)]["raw"] = None if "a" in combo else "DeclaredError"
+                continue
             if e[0] == "N":
                 if expect_nested is None or int(e[1:]) != n:
                     return Failure(case, where + "unexpected nested call", "log")
@@ -424,6 +506,12 @@ def oracle(case, obs):
                     continue
                 if c["after_loss"]:
                     return Failure(case, where + f"call {i} made after the loss got {res}", "after-loss-result")
+                if "raw" in c:
+                    want = f"ok:{i}" if c["raw"] is None else "err:" + c["raw"]
+                    if res != want:
+                        return Failure(case, where + f"call {i} was resolved by a box carrying several routing keys: got {res}, "
+                                               f"precedence (_answer, _error, _command) gives {want}", "routing-precedence")
+                    continue
                 kind = c["kind"] if c["kind"] != "later" else later.get(i)
                 if kind not in EXPECT:
                     return Failure(case, where + f"call {i} got {res} although its responder has not answered", "answer-without-question")
@@ -458,7 +546,8 @@ def gen(rng, tier):
     cases = []
     alpha = [["call", 0, "now", False], ["call", 1, "now", True], ["call", 0, "later", True], ["call", 0, "declared", False],
              ["call", 1, "sub", True], ["call", 0, "fatal", False], ["call", 1, "undeclared", False],
-             ["call", 0, "unknown", True], ["deliver", 0, 1], ["deliver", 1, 1],
+             ["call", 0, "unknown", True], ["call", 1, "echo", True], ["call", 0, "baddesc", False, 0],
+             ["deliver", 0, 1], ["deliver", 1, 1],
              ["fire", 0, "ok"], ["fire", 0, "sub"], ["fire", 0, "undeclared"], ["disc", 0, 500]]
     depth = 3 if tier == "quick" else 5
     for n in range(1, depth + 1):
@@ -476,16 +565,32 @@ def gen(rng, tier):
         for _ in range(rng.randrange(5, 50)):
             r = rng.random()
             if r < 0.35:
-                kinds = ["now", "now", "later", "later", "declared", "sub", "unknown"] + (["undeclared", "fatal"] if fatal else [])
-                ops.append(["call", rng.randrange(2), rng.choice(kinds), rng.random() < 0.35])
+                kinds = ["now", "now", "later", "later", "declared", "sub", "unknown", "echo", "echo", "baddesc"] + (["undeclared", "fatal"] if fatal else [])
+                ops.append(["call", rng.randrange(2), rng.choice(kinds), rng.random() < 0.35, rng.randrange(len(DESCS))])
             elif r < 0.75:
                 ops.append(["deliver", rng.randrange(2), rng.choice([1, 1, 1, 2, 3, 7])])
             elif r < 0.93:
-                ops.append(["fire", rng.choice([0, 0, 1, 2, 5]), rng.choice(["ok", "ok", "declared", "sub"] + (["undeclared", "fatal"] if fatal else []))])
+                ops.append(["fire", rng.choice([0, 0, 1, 2, 5]), rng.choice(["ok", "ok", "declared", "sub", "baddesc"] + (["undeclared", "fatal"] if fatal else []))])
             elif r < 0.96:
                 ops.append(["disc", rng.randrange(2), rng.choice([0, 1, 500, 999])])
             else:
                 ops.append(["call", rng.randrange(2), "now", True])
+        cases.append({"ops": ops, "chunks": rng.randrange(1 << 30)})
+    # raw boxes carrying several routing keys, errors with unknown codes and arbitrary descriptions (oracle only)
+    for _ in range(120 if tier == "quick" else 2500):
+        ops = [["call", 0, "later", rng.random() < 0.3], ["call", 1, "later", False]]
+        for _ in range(rng.randrange(1, 5)):
+            ops.append(["call", rng.randrange(2), rng.choice(["later", "later", "weirderr", "baddesc", "echo"]), rng.random() < 0.3,
+                        rng.randrange(len(DESCS))])
+        for _ in range(rng.randrange(2, 8)):
+            r = rng.random()
+            if r < 0.4:
+                ops.append(["raw", rng.randrange(2), rng.choice([0, 0, 1]), rng.choice(["ac", "ec", "ae", "aec"]), rng.randrange(len(DESCS))])
+            elif r < 0.8:
+                ops.append(["deliver", rng.randrange(2), rng.choice([1, 2])])
+            else:
+                ops.append(["call", rng.randrange(2), rng.choice(["weirderr", "baddesc", "echo", "now"]), False, rng.randrange(len(DESCS))])
+        ops.append(["disc", rng.randrange(2), 0])
         cases.append({"ops": ops, "chunks": rng.randrange(1 << 30)})
     # protocol switching (oracle only): calls outstanding when a ProtocolSwitchCommand succeeds, then the loss
     for _ in range(150 if tier == "quick" else 3000):
@@ -521,6 +626,15 @@ def corpus():
         {"ops": [["call", 0, "now", False], ["call", 0, "later", False], ["call", 1, "undeclared", False], ["deliver", 0, 1], ["deliver", 1, 1],
                  ["call", 1, "now", False]], "chunks": 2},
         {"ops": [["call", 0, "now", False], ["disc", 0, 999], ["call", 0, "now", False], ["call", 1, "unknown", False]], "chunks": 3},
+        # echo-style low-level responder (answer box keeps _command), errors with invalid-UTF-8 / empty / long descriptions,
+        # raw boxes with several routing keys (seeded C31-E / C31-F)
+        {"ops": [["call", 0, "echo", True], ["call", 1, "echo", False], ["deliver", 0, 1], ["deliver", 1, 2], ["deliver", 0, 2],
+                 ["call", 0, "baddesc", False, 0], ["call", 0, "baddesc", True, 2], ["call", 1, "baddesc", False, 1], ["deliver", 0, 3],
+                 ["deliver", 1, 3], ["deliver", 0, 3], ["call", 1, "later", False], ["deliver", 1, 1], ["fire", 0, "baddesc"],
+                 ["deliver", 0, 1], ["disc", 0, 0]], "chunks": 7},
+        {"ops": [["call", 0, "later", False], ["call", 0, "later", False], ["call", 1, "later", False], ["call", 0, "weirderr", False, 0],
+                 ["raw", 0, 0, "ac", 0], ["raw", 0, 0, "ec", 0], ["raw", 1, 0, "aec", 2], ["deliver", 0, 9], ["deliver", 1, 9],
+                 ["disc", 0, 0]], "chunks": 8},
         # a call outstanding when the connection is handed to another protocol, then the loss (seeded C31-D)
         {"ops": [["call", 0, "later", False], ["deliver", 0, 1], ["call", 0, "switch", False], ["deliver", 0, 1], ["deliver", 1, 1],
                  ["call", 0, "now", False], ["disc", 0, 0], ["call", 0, "now", False], ["call", 1, "now", True]], "chunks": 6},
@@ -534,16 +648,18 @@ def corpus():
 
 
 def to_coq(case):
-    if case.get("kind") == "wrap" or any(o[0] == "call" and o[2] == "switch" for o in case["ops"]):
+    if case.get("kind") == "wrap" or any(o[0] == "raw" or (o[0] == "call" and o[2] in ("switch", "weirderr")) for o in case["ops"]):
         return None         # not modelled: tags are unbounded naturals in the model; protocol switching is out of its scope
 
     def op(o):
         if o[0] == "call":
-            return f"OCall {'true' if o[1] else 'false'} K{o[2]} {'true' if (len(o) > 3 and o[3]) else 'false'}"
+            # echo answers at once with the caller's own argument (= Know); baddesc is a declared, non-fatal error (= Kdeclared)
+            k = {"echo": "now", "baddesc": "declared"}.get(o[2], o[2])
+            return f"OCall {'true' if o[1] else 'false'} K{k} {'true' if (len(o) > 3 and o[3]) else 'false'}"
         if o[0] == "deliver":
             return f"ODeliver {'true' if o[1] else 'false'} {int(o[2])}%nat"
         if o[0] == "fire":
-            return f"OFire {int(o[1])}%nat Out{o[2]}"
+            return f"OFire {int(o[1])}%nat Out{'declared' if o[2] == 'baddesc' else o[2]}"
         return "ODisc"
     return coq_list(map(op, case["ops"]), "op")
 
@@ -567,11 +683,14 @@ SPEC = Spec(
     ("switch:" if "I0:sw" in o or "I1:sw" in o else "") + ("lost" if " |up=F" in o else "up") + (":fatal" if "UnknownRemoteError" in o else ""),
     case_timeout=120.0,
     rule="every history of length <= 2, 30% of length 3 (quick) / <= 3, 40% of length 4, 1% of length 5 (thorough) over a "
-         "14-letter alphabet (calls of each responder kind incl. subclass-of-declared and fatal declared errors, with and "
+         "16-letter alphabet (calls of each responder kind incl. subclass-of-declared and fatal declared errors, with and "
          "without a re-entrant follow-up call from their callback/errback, from either peer; deliver one box in either direction; "
          "fire the oldest pending responder with success / subclass error / undeclared error; loss in the middle of the next box), plus "
          "random histories of 5-50 ops (deliveries of 1-7 boxes, responders fired out of order, loss at 0/0.1/50/99.9% of "
-         "the next box); each box's bytes arrive in 1-3 chunks cut at seeded offsets; 150 histories with a ProtocolSwitchCommand "
+         "the next box); each box's bytes arrive in 1-3 chunks cut at seeded offsets; 120 histories with raw boxes that carry several routing keys at once "
+         "(_answer/_error/_command: precedence), errors with unknown codes and arbitrary-bytes descriptions (oracle only); the modelled "
+         "alphabet also has an echo-style low-level responder (callRemoteString; the answer box keeps _command/_ask) and declared errors "
+         "with invalid-UTF-8 / empty / 3000-byte descriptions; 150 histories with a ProtocolSwitchCommand "
          "(calls outstanding at switch time, calls after the switch, then the loss; oracle only) and ONE history in which a peer makes "
          "65 538 calls while its first call is still unanswered (tag space of 2**16 exhausted; oracle only; thorough: three, up to "
          "131 100 calls); non-trivial = some call fired and a "
